@@ -270,8 +270,9 @@ def evaluate(plan, H):
                  (ind, cls, (rec.get('raw') or b'')[:200]))
     # per-sender order (at callback 0)
     order = {}
+    acked = {r['ind'] for r in H['responses'] if r.get('cls') == 'ack'}
     for e in H['events']:
-        if e['k'] == 'deliver' and e['cb'] == 0 and e['ind'].startswith('s'):
+        if e['k'] == 'deliver' and e['cb'] == 0 and e['ind'] in acked:
             s, k = e['ind'][1:].split('-')
             order.setdefault(s, []).append(int(k))
     for s, ks in sorted(order.items()):
